@@ -81,12 +81,45 @@ func init() {
 				return w.viol("bulk.faulty-stream", "NewArrayFromBatchData whose element provider failed at element %d of %d returned no error (an array of %d elements)", failAt, len(stream), n)
 			}
 		}
+		// freshly built child containers travel in the stream too (a deep copy hands the copies of nested values
+		// to the batch build): each is stored inline or apart exactly as an Append would have stored it
+		vals := make([]atree.Value, len(stream))
+		for j, mv := range stream {
+			vals[j], _ = scalarValueOf(mv)
+		}
+		var kids []*MCont
+		for j := range st.Kids {
+			kv, km, err := w.materialize(&st.Kids[j], st.Owner, nil)
+			if err != nil {
+				if err == errSkip {
+					continue
+				}
+				if vv, ok := err.(*Violation); ok {
+					return vv
+				}
+				return w.viol("bulk.error", "building a child for the stream failed: %v", err)
+			}
+			at := 0
+			if len(stream) > 0 {
+				at = int((st.Pos + uint64(j)*7919) % uint64(len(stream)+1))
+			}
+			stream = append(stream, nil)
+			copy(stream[at+1:], stream[at:])
+			stream[at] = km
+			vals = append(vals, nil)
+			copy(vals[at+1:], vals[at:])
+			vals[at] = kv
+			if ch := childOf(km); ch != nil {
+				kids = append(kids, ch)
+			}
+			w.Stats.Inc("bulk.child-in-stream")
+		}
 		i := 0
 		a, err := atree.NewArrayFromBatchData(w.Storage, OwnerAddress(st.Owner), *st.T, func() (atree.Value, error) {
-			if i >= len(stream) {
+			if i >= len(vals) {
 				return nil, nil
 			}
-			v, _ := scalarValueOf(stream[i])
+			v := vals[i]
 			i++
 			return v, nil
 		})
@@ -96,6 +129,11 @@ func init() {
 		c := &MCont{CID: st.CID, Type: *st.T, Owner: st.Owner, Dig: DigesterSpec{Kind: "default"}, Volatile: st.Owner == 0}
 		c.Elems = append(c.Elems, stream...)
 		w.newRootFromLib(st, a, c)
+		for _, ch := range kids {
+			// the build does not wire the handles it was given to the new parent: children are re-obtained through it
+			w.attach(c, ch)
+			w.dropHandles(ch)
+		}
 		w.Stats.Inc("bulk.array-built")
 		if len(stream) == 0 {
 			w.Stats.Inc("bulk.empty")
@@ -367,6 +405,35 @@ func init() {
 		st.V = &VSpec{S: &[2]int{id, sz}}
 		if g.R.Chance(0.4) {
 			st.End = uint64(g.R.Range(20, 150)) // burst of insertions right after the build
+		}
+		if kr := g.R.Sub("bulk-kids"); kr.Chance(0.35) {
+			// child containers in the stream, their sizes swept across the per-element inline limit
+			for k := kr.Range(1, 5); k > 0; k-- {
+				cs := &CSpec{CID: g.cid(), T: g.genType()}
+				width := []int{1, 2, 3, 5, 9}[kr.Intn(5)] // encoded bytes of one element
+				val := []uint64{7, 200, 60000, 1 << 20, 1 << 40}[map[int]int{1: 0, 2: 1, 3: 2, 5: 3, 9: 4}[width]]
+				n := []int{0, 1, kr.Range(2, 12), (limit-20)/width + kr.Intn(9) - 4, (limit-20)/width + kr.Intn(9) - 4, limit/width + kr.Range(1, 30)}[kr.Intn(6)]
+				if n < 0 {
+					n = 0
+				}
+				isMap := kr.Chance(0.3)
+				for e := 0; e < n; e++ {
+					if isMap {
+						if e >= len(g.keys) || e >= 40 {
+							break
+						}
+						cs.K = append(cs.K, g.keys[e])
+						cs.V = append(cs.V, VSpec{U: u64p(val + uint64(e%5))})
+					} else {
+						cs.E = append(cs.E, VSpec{U: u64p(val + uint64(e%5))})
+					}
+				}
+				if isMap {
+					st.Kids = append(st.Kids, VSpec{Map: cs})
+				} else {
+					st.Kids = append(st.Kids, VSpec{Arr: cs})
+				}
+			}
 		}
 		return st, true
 	}
